@@ -13,6 +13,7 @@ import json
 import multiprocessing as mp
 import os
 import random
+import re
 import sys
 import time
 
@@ -32,7 +33,9 @@ def caller(key='k1', arrive=0, retries=0, wait=8, bf=(1, 1), timeout=20, restric
 
 
 def scn(sid, callers, limit=0, lax=True, semto=-1, scope='global'):
-    return {'id': sid, 'limit': limit, 'lax': lax, 'semto': semto, 'scope': scope, 'callers': callers}
+    n = int(re.sub(r'\D', '', sid) or 0)
+    # every other scenario: the spawning task has used a @retry function before (see `warm` in _perform); not part of the timeline
+    return {'id': sid, 'sid': sid, 'limit': limit, 'lax': lax, 'semto': semto, 'scope': scope, 'callers': callers, 'warm': n % 2 == 1}
 
 
 def gen_c19(tier, seed):
@@ -208,6 +211,12 @@ def _perform(scn_list, clear_registry=True):
 
         async def main():
             loop_holder['loop'] = asyncio.get_running_loop()
+            if s.get('warm'):
+                # the task that spawns the callers has itself used a @retry function before (zero duration, its own semaphore): whatever
+                # per-context state the decorator keeps is then inherited by every caller task
+                async def warm_body():
+                    return None
+                await H.retry(wait=0, retries=0, timeout=5, semaphore_limit=1, semaphore_name='warmup_' + str(s.get('sid', '')), semaphore_lax=False)(warm_body)()
             tasks = [asyncio.ensure_future(run_caller(i, c)) for i, c in enumerate(s['callers'], start=1)]
             await asyncio.wait(tasks)
             await asyncio.sleep(0.5)
